@@ -12,8 +12,8 @@ from common.world import World
 
 class Do(events.Event):
     """environment action delivered to the child layer: emit these commands now"""
-    def __init__(self, cmds): self.cmds = cmds
-    def __repr__(self): return f"Do({self.cmds})"
+    def __init__(self, cmds, n=0): self.cmds, self.n = cmds, n
+    def __repr__(self): return f"Do({self.n}, {self.cmds})"
 
 
 class Child(layer.Layer):
@@ -28,7 +28,10 @@ class Child(layer.Layer):
         if isinstance(ev, events.Start): self.log.append(("start",))
         elif isinstance(ev, events.DataReceived): self.log.append(("data", id(ev.connection), bytes(ev.data)))
         elif isinstance(ev, events.ConnectionClosed): self.log.append(("closed", id(ev.connection)))
+        elif isinstance(ev, events.OpenConnectionCompleted):
+            self.log.append(("opened", ev.reply)); self.open_result = ev.reply
         elif isinstance(ev, Do):
+            self.log.append(("do", ev.n))
             for c in ev.cmds: yield c
             return
         else: self.log.append(("other", type(ev).__name__))
